@@ -126,6 +126,10 @@ def corpus(rng, tier):
     data = f + md + m1
     for k in (0, 3, 4, 7, 8, 19, 20, 24, 28, 34, 35, 36, 40, 60, len(data) - 1):
         out.append((to_args(case_dense("strict" if k % 2 else "lenient", P.DEFAULT_MAX, None, data[:k])), "truncation"))
+    # a payload far larger than any internal piece size, cut around the 64 KiB multiples: still ONE read whose short end is TruncatedBox
+    big = [l for l, _ in P.big_box_truncations(("strict", "lenient"))]
+    for l in (big[::7] if tier == "quick" else big):
+        out.append((to_args(l), "truncation"))
     # size-field pathologies (sample)
     path = [l for l, tag in P.pathologies(rng, readers=("strict", "cursor")) if tag == "size-pathology"]
     for l in rng.sample(path, 10 if tier == "quick" else 40):
